@@ -101,6 +101,7 @@ pub fn run(args: &Args) -> i32 {
         with_closures: false,
         max_stack: 1,
         f1_open: false,
+        static_slot: false,
     };
     let depth = std::env::var("VERIF_DEPTH").ok().and_then(|s| s.parse().ok()).unwrap_or(args.tier.pick(5, 7));
     // roots: the initial state, and two "warm" states in which every callsite is already
